@@ -20,7 +20,7 @@ RULE = ('canonical part: random recipes (as C01) are written by the real '
         'file has >= 2 content sections; distinct = fingerprint of the '
         'bytes.')
 FLOOR = {'quick': 5000, 'thorough': 150000}
-REQUIRED_REACH = ['DiffXDOMWriter.write_stream', 'DiffXDOMReader.parse']
+REQUIRED_REACH = ['dom/writer.py:', 'dom/reader.py:']
 REQUIRED_COUNTERS = ['canonical_identity_checked', 'foreign_accepted',
                      'foreign_fixed_point_checked',
                      'foreign:main_encoding_omitted']
